@@ -23,6 +23,7 @@ Out of scope (not in the property's quantifier): entries that are neither regula
 directories nor symlinks (fifos, sockets, devices), unreadable files, I/O errors.
 -/
 import NotationModel.Model.C13
+import NotationModel.Generated.SrcC13
 
 set_option linter.unusedSimpArgs false
 set_option linter.unusedVariables false
@@ -39,8 +40,6 @@ theorem rejected_pinned : rejectedNames = [['.'], ['.', '.']] := by decide
 
 /-- `truststore.Types` are the three store types the property knows -/
 theorem types_pinned : Facts.c13StoreTypes = specTypes := by decide
-
-theorem type_check_is_membership : Facts.c13TypeCheckIsMembership = true := by decide
 
 /-- the root requirement is keyed on the tsa type, and only on it -/
 theorem root_pinned : Facts.c13RootCheckedTypes = ["tsa"] := by decide
@@ -745,5 +744,428 @@ example : storeDir "ca" "..".toList = "truststore/x509".toList := by decide
 example : storeDir "ca" "../tsa/x".toList = "truststore/x509/tsa/x".toList := by decide
 example : Holds { store "ca" "s" [] with op := .storePath }
     { ok := true, certs := [], path := "truststore/x509/s/ca".toList } = false := by decide
+
+
+/-! ### tie to the translated source (docs/TIE_BRIEF.md)
+
+`Generated/SrcC13.lean` (package truststore: `Types` and the type constants, `isValidStoreType`,
+`ValidateCertificates`, `isRootCACertificate`, `x509TrustStore.GetCertificates`), `SrcC13b.lean`
+(`file.IsValidFileName`) and `SrcC13c.lean` (`dir.X509TrustStoreDir`) are translated from the Go
+source on every run. The theorems below prove that each translated function computes, for ALL
+inputs and ALL oracles, what the hand-written model computes. Oracles (file system, crypto/x509,
+regexp, path.Join): see `Src/TypesC13.lean`. The proofs do not quote the generated text: loops are
+rewritten by `GoLite.forIn_eq_foldE'` against step functions written here. -/
+namespace Tie
+open NotationModel.Src.truststore
+
+/-- a certificate of the translated world as the model sees it -/
+def absCert (c : x509.Certificate) : CertFlags :=
+  { id := c.id, isCA := c.IsCA, selfSig := c.selfSigErr.isNone, signOk := c.signOk,
+    subjEqIssuer := bytes.Equal c.RawSubject c.RawIssuer }
+
+theorem typeTSA_agree : TypeTSA = "tsa" := by decide
+
+theorem source_isValidStoreType_refines_model (t : String) : isValidStoreType t = knownType t := by
+  rw [knownType_eq]
+  -- the three known types by evaluation, every other text by unrolling whatever shape the test has
+  by_cases h1 : t = "ca"
+  · subst h1; decide
+  by_cases h2 : t = "signingAuthority"
+  · subst h2; decide
+  by_cases h3 : t = "tsa"
+  · subst h3; decide
+  have h1' : ¬ "ca" = t := fun e => h1 e.symm
+  have h2' : ¬ "signingAuthority" = t := fun e => h2 e.symm
+  have h3' : ¬ "tsa" = t := fun e => h3 e.symm
+  simp [isValidStoreType, Id.run, GoLite.contains, Types, TypeCA, TypeSigningAuthority, TypeTSA,
+    specTypes, h1, h2, h3, h1', h2', h3'] <;> rfl
+
+theorem toList_eq_iff (s : String) (l : List Char) : s.toList = l ↔ s = String.ofList l := by
+  constructor
+  · intro h; rw [← h, String.ofList_toList]
+  · intro h; rw [h, String.toList_ofList]
+
+theorem source_IsValidFileName_refines_model (s : String) :
+    file.IsValidFileName s = isValidFileName s.toList := by
+  by_cases h1 : s = "."
+  · subst h1; decide
+  by_cases h2 : s = ".."
+  · subst h2; decide
+  have h1' : ¬ "." = s := fun e => h1 e.symm
+  have h2' : ¬ ".." = s := fun e => h2 e.symm
+  have e1 : (s.toList == ['.']) = false := by
+    rw [beq_eq_false_iff_ne]; intro e; exact h1 ((toList_eq_iff s _).1 e)
+  have e2 : (s.toList == ['.', '.']) = false := by
+    rw [beq_eq_false_iff_ne]; intro e; exact h2 ((toList_eq_iff s _).1 e)
+  unfold isValidFileName
+  rw [mem_rejected, e1, e2]
+  simp [file.IsValidFileName, Id.run, regexp.MustCompile, regexp.Regexp.MatchString, GoLite.idPure, h1, h2, h1', h2']
+
+theorem source_X509TrustStoreDir_refines_model (t n : String) :
+    dir.X509TrustStoreDir [t, n] = String.ofList (storeDir t n.toList) := by
+  have hp : storePrefix = ["truststore".toList, "x509".toList] := by decide
+  simp [dir.X509TrustStoreDir, Id.run, path.Join, storeDir, hp, dir.TrustStoreDir, GoLite.idPure]
+
+/-- the first failure of a check over a list -/
+def firstSome {α ε : Type} (p : α → Option ε) : List α → Option ε
+  | [] => none
+  | a :: l => match p a with
+    | some e => some e
+    | none => firstSome p l
+
+theorem firstSome_isNone {α ε : Type} (p : α → Option ε) (l : List α) :
+    (firstSome p l).isNone = l.all (fun a => (p a).isNone) := by
+  induction l with
+  | nil => rfl
+  | cons a l ih => simp only [firstSome, List.all_cons]; cases p a <;> simp [ih]
+
+/-- the step of a loop that checks every element and returns at the first failure -/
+def checkStep {α ε : Type} (p : α → Option ε) (_ : Unit) (a : α) : Except ε Unit :=
+  match p a with
+  | none => .ok ()
+  | some e => .error e
+
+theorem foldE_checkStep {α ε : Type} (p : α → Option ε) (l : List α) :
+    GoLite.foldE (checkStep p) l () =
+      match firstSome p l with
+      | none => .ok ()
+      | some e => .error ((), e) := by
+  induction l with
+  | nil => rfl
+  | cons a l ih =>
+    simp only [GoLite.foldE, checkStep, firstSome]
+    cases h : p a with
+    | none => simpa [checkStep] using ih
+    | some e => rfl
+
+/-- what `ValidateCertificates` checks of one certificate -/
+def validErr (c : x509.Certificate) : Option Unit :=
+  if c.IsCA || c.selfSigErr.isNone then none else some ()
+
+theorem source_ValidateCertificates_refines_model (cs : List x509.Certificate) :
+    (ValidateCertificates cs).isNone = validateCertificates (cs.map absCert) := by
+  unfold ValidateCertificates
+  simp only [Id.run]
+  cases cs with
+  | nil => simp [validateCertificates, GoLite.len, GoLite.idPure]
+  | cons c0 cs0 =>
+    have hlen : decide (GoLite.len (c0 :: cs0) < 1) = false := by simp [GoLite.len]; omega
+    have hlen0 : (GoLite.len (c0 :: cs0) == 0) = false := by simp [GoLite.len]; omega
+    have hlen0' : ((0 : Int) == GoLite.len (c0 :: cs0)) = false := by simp [GoLite.len]; omega
+    simp only [hlen, hlen0, hlen0', Bool.false_eq_true, if_false]
+    rw [GoLite.forIn_eq_foldE' _ (checkStep validErr) (fun _ => (none, ()))
+      (fun _ _ => (some (some (GoLite.errorf "")), ())) ?h _ _ () rfl]
+    case h =>
+      intro c t
+      cases hca : c.IsCA <;> cases hs : c.selfSigErr <;>
+        simp [checkStep, validErr, x509.Certificate.CheckSignature, hca, hs, GoLite.errorf]
+    simp only [pure_bind, foldE_checkStep]
+    have := firstSome_isNone validErr (c0 :: cs0)
+    have hv : validateCertificates ((c0 :: cs0).map absCert) = (c0 :: cs0).all (fun a => (validErr a).isNone) := by
+      simp only [validateCertificates, List.all_map]
+      have : (fun a => (validErr a).isNone) = ((fun c => c.isCA || c.selfSig) ∘ absCert) := by
+        funext a; simp only [validErr, absCert, Function.comp]; cases a.IsCA <;> cases a.selfSigErr.isNone <;> rfl
+      rw [this]; simp
+    rw [hv, ← this]
+    cases firstSome validErr (c0 :: cs0) <;> simp [GoLite.idPure]
+
+theorem bytes_equal_comm (a b : List Nat) : bytes.Equal a b = bytes.Equal b a := by
+  simp only [bytes.Equal]
+  by_cases h : a = b
+  · subst h; rfl
+  · have h' : ¬ b = a := fun e => h e.symm
+    rw [beq_eq_false_iff_ne.2 h, beq_eq_false_iff_ne.2 h']
+
+theorem source_isRootCACertificate_refines_model (c : x509.Certificate) :
+    (isRootCACertificate c).isNone = isRootCA (absCert c) := by
+  unfold isRootCACertificate x509.Certificate.CheckSignatureFrom isRootCA absCert
+  simp only [Id.run]
+  have hcomm := bytes_equal_comm c.RawIssuer c.RawSubject
+  cases hso : c.signOk <;> cases hse : c.selfSigErr <;> cases heq : bytes.Equal c.RawSubject c.RawIssuer <;>
+    simp [GoLite.idPure, hcomm, heq]
+
+/-! #### GetCertificates -/
+
+/-- an entry of the translated world as the model sees it -/
+def absEntry (w : World) (path : String) (f : fs.DirEntry) : Entry :=
+  { name := f.Name.toList,
+    kind := if f.IsDir then .dir else if f.«Type».symlink then .symlink else .file,
+    parseOk := (w.ReadCertificateFile (filepath.Join path f.Name)).2.isNone,
+    certs := (w.ReadCertificateFile (filepath.Join path f.Name)).1.map absCert,
+    enc := "" }
+
+/-- the store path the translated code computes -/
+def srcPath (ts : x509TrustStore) (t n : String) : String × Option GoLite.Err :=
+  ts.trustStorefs.SysPath (dir.X509TrustStoreDir [t, n])
+
+/-- the kind of the store directory the oracles stand for. I/O errors (SysPath, Lstat other than
+"does not exist", ReadDir) have no kind of their own in the model: like a missing directory they
+make the load fail, and are mapped to `.missing`. -/
+def absDirKind (ts : x509TrustStore) (w : World) (t n : String) : DirKind :=
+  if (srcPath ts t n).2.isSome || (w.Lstat (srcPath ts t n).1).2.isSome then .missing
+  else if (w.Lstat (srcPath ts t n).1).1.Mode.symlink then .symlinkToDir
+  else if !(w.Lstat (srcPath ts t n).1).1.Mode.IsDir then .file
+  else if (w.ReadDir (srcPath ts t n).1).2.isSome then .missing
+  else .dir
+
+/-- the world the oracles stand for -/
+def absInput (ts : x509TrustStore) (w : World) (t n : String) : Input :=
+  { op := .load, storeType := t, name := n.toList, dirKind := absDirKind ts w t n,
+    entries := (w.ReadDir (srcPath ts t n).1).1.map (absEntry w (srcPath ts t n).1),
+    decoys := false, ctx := { kind := .background, n := 0, deadline := false } }
+
+/-- result shape: the certificates as the model sees them, and "no error" -/
+def shape (r : List x509.Certificate × Option GoLite.Err) : List CertFlags × Bool :=
+  (r.1.map absCert, r.2.isNone)
+
+def ofModel : Option (List CertFlags) → List CertFlags × Bool
+  | some cs => (cs, true)
+  | none => ([], false)
+
+/-- the bit test against `fs.ModeSymlink`, operands in either order, is the symlink bit -/
+theorem hasBits_symlink_right (m : fs.FileMode) : GoLite.hasBits m fs.ModeSymlink = m.symlink := by
+  simp [GoLite.hasBits, fs.ModeSymlink]
+theorem hasBits_symlink_left (m : fs.FileMode) : GoLite.hasBits fs.ModeSymlink m = m.symlink := by
+  simp [GoLite.hasBits, fs.ModeSymlink]
+/-- the comparison with `TypeTSA`, operands in either order -/
+theorem tsa_right (t : String) : (t == TypeTSA) = (t == "tsa") := by rw [typeTSA_agree]
+theorem tsa_left (t : String) : (TypeTSA == t) = (t == "tsa") := by
+  rw [typeTSA_agree]
+  by_cases h : t = "tsa"
+  · subst h; rfl
+  · have h' : ¬ "tsa" = t := fun e => h e.symm
+    rw [beq_eq_false_iff_ne.2 h, beq_eq_false_iff_ne.2 h']
+
+/-- the tsa loop's check of one certificate: the value of `err` when the loop stops there -/
+def rootChk (c : x509.Certificate) : Option (Option GoLite.Err) :=
+  if (isRootCACertificate c).isSome then some (isRootCACertificate c) else none
+
+/-- one iteration of the file loop: the new accumulator, or the value of `err` at the `return` -/
+def fileStep (w : World) (path : String) (t : String) (acc : List x509.Certificate) (f : fs.DirEntry) :
+    Except (Option GoLite.Err) (List x509.Certificate) :=
+  if f.IsDir || f.«Type».symlink then .error none
+  else if (w.ReadCertificateFile (filepath.Join path f.Name)).2.isSome then
+    .error (w.ReadCertificateFile (filepath.Join path f.Name)).2
+  else if (ValidateCertificates (w.ReadCertificateFile (filepath.Join path f.Name)).1).isSome then
+    .error (ValidateCertificates (w.ReadCertificateFile (filepath.Join path f.Name)).1)
+  else if t == "tsa" then
+    match firstSome rootChk (w.ReadCertificateFile (filepath.Join path f.Name)).1 with
+    | some e => .error e
+    | none => .ok (acc ++ (w.ReadCertificateFile (filepath.Join path f.Name)).1)
+  else .ok (acc ++ (w.ReadCertificateFile (filepath.Join path f.Name)).1)
+
+theorem rootChk_all (cs : List x509.Certificate) :
+    (firstSome rootChk cs).isNone = (cs.map absCert).all isRootCA := by
+  rw [firstSome_isNone, List.all_map]
+  congr 1; funext c
+  simp only [rootChk, Function.comp, ← source_isRootCACertificate_refines_model]
+  cases (isRootCACertificate c) <;> simp
+
+/-- one iteration, seen through the abstraction: it continues exactly when the model's loop does,
+with the file's certificates appended -/
+theorem fileStep_entry (w : World) (path t : String) (acc : List x509.Certificate) (f : fs.DirEntry) :
+    (entryOk t (absEntry w path f) = true →
+      fileStep w path t acc f = .ok (acc ++ (w.ReadCertificateFile (filepath.Join path f.Name)).1)) ∧
+    (entryOk t (absEntry w path f) = false → ∃ e, fileStep w path t acc f = .error e) := by
+  have hv := source_ValidateCertificates_refines_model (w.ReadCertificateFile (filepath.Join path f.Name)).1
+  have hr := rootChk_all (w.ReadCertificateFile (filepath.Join path f.Name)).1
+  simp only [entryOk, absEntry, needsRoot_eq, fileStep, ← hv, ← hr]
+  cases f.IsDir <;> cases f.«Type».symlink <;>
+    cases (w.ReadCertificateFile (filepath.Join path f.Name)).2 <;>
+    cases ValidateCertificates (w.ReadCertificateFile (filepath.Join path f.Name)).1 <;>
+    cases (t == "tsa") <;>
+    cases firstSome rootChk (w.ReadCertificateFile (filepath.Join path f.Name)).1 <;> simp
+
+/-- the file loop, seen through the abstraction, is the model's `loadEntries` -/
+theorem foldE_fileStep (w : World) (path t : String) : ∀ (files : List fs.DirEntry) (acc : List x509.Certificate),
+    (match GoLite.foldE (fileStep w path t) files acc with
+      | .ok cs => some (cs.map absCert)
+      | .error _ => none) = loadEntries t (files.map (absEntry w path)) (acc.map absCert) := by
+  intro files
+  induction files with
+  | nil => intro acc; rfl
+  | cons f rest ih =>
+    intro acc
+    have hstep := fileStep_entry w path t acc f
+    rw [loadEntries_eq] at *
+    simp only [GoLite.foldE, List.map_cons, List.all_cons, List.flatMap_cons]
+    cases hok : entryOk t (absEntry w path f)
+    · obtain ⟨e, he⟩ := hstep.2 hok
+      simp [he]
+    · rw [hstep.1 hok]
+      have := ih (acc ++ (w.ReadCertificateFile (filepath.Join path f.Name)).1)
+      rw [loadEntries_eq] at this
+      simp only [this, Bool.true_and, List.map_append, List.append_assoc, absEntry]
+
+theorem insertEntry_of_le (e : Entry) (l : List Entry) (h : ∀ x ∈ l, nameLe e.name x.name = true) :
+    insertEntry e l = e :: l := by
+  cases l with
+  | nil => rfl
+  | cons x xs => simp [insertEntry, h x (List.mem_cons_self)]
+
+/-- a listing that is sorted by name (what `os.ReadDir` returns) is its own directory order -/
+theorem sortEntries_of_sorted : ∀ l : List Entry,
+    l.Pairwise (fun a b => nameLe a.name b.name = true) → sortEntries l = l := by
+  intro l
+  induction l with
+  | nil => intro _; rfl
+  | cons e es ih =>
+    intro h
+    rw [List.pairwise_cons] at h
+    rw [sortEntries, ih h.2, insertEntry_of_le e es h.1]
+
+/-- TIE (translated source): `x509TrustStore.GetCertificates`, translated from
+verifier/truststore/truststore.go on every run (`Generated/SrcC13.lean`), returns for EVERY store
+type, store name, trust store value and file-system oracle exactly the certificates the model's
+`getCertificates` returns on the world the oracles stand for (`absInput`), and fails exactly when it
+fails - returning no certificate then. Hypothesis: `os.ReadDir` lists entries sorted by file name
+(its documented contract). -/
+theorem source_GetCertificates_refines_model (ts : x509TrustStore) (w : World) (t n : String)
+    (hsorted : ∀ p, (w.ReadDir p).1.Pairwise (fun a b => nameLe a.Name.toList b.Name.toList = true)) :
+    shape (x509TrustStore.GetCertificates ts w () t n) = ofModel (getCertificates (absInput ts w t n)) := by
+  have hdef : (default : List x509.Certificate) = [] := rfl
+  unfold x509TrustStore.GetCertificates
+  simp only [Id.run, source_isValidStoreType_refines_model, source_IsValidFileName_refines_model, id_eq,
+    hasBits_symlink_left, hasBits_symlink_right, tsa_left, tsa_right]
+  unfold getCertificates
+  simp only [absInput]
+  by_cases hk : knownType t = true
+  case neg => simp [hk, shape, ofModel, GoLite.idPure, hdef]
+  by_cases hn : isValidFileName n.toList = true
+  case neg => simp [hk, hn, shape, ofModel, GoLite.idPure, hdef]
+  simp only [hk, hn, Bool.not_true, Bool.false_eq_true, if_false]
+  unfold absDirKind srcPath
+  -- the oracles as plain functions
+  rcases ts with ⟨⟨sysPath⟩⟩
+  rcases w with ⟨lstat, readDir, readCert⟩
+  simp only [] at hsorted ⊢
+  obtain ⟨P, hP⟩ : ∃ P, sysPath (dir.X509TrustStoreDir [t, n]) = P := ⟨_, rfl⟩
+  simp only [hP]
+  rcases P with ⟨path, e0⟩
+  cases e0 with
+  | some e => simp [shape, ofModel, GoLite.idPure, hdef]
+  | none =>
+    simp only [Option.isSome_none, Bool.false_eq_true, if_false, Bool.false_or]
+    have hsrt := hsorted path
+    generalize lstat path = L at *
+    rcases L with ⟨info, e1⟩
+    cases e1 with
+    | some e => simp [shape, ofModel, GoLite.idPure, hdef]
+    | none =>
+      simp only [Option.isSome_none, Bool.false_eq_true, if_false]
+      cases hsl : info.Mode.symlink
+      case true => simp [shape, ofModel, GoLite.idPure, hdef]
+      cases hd : info.Mode.IsDir
+      case false => simp [shape, ofModel, GoLite.idPure, hdef]
+      simp only [Bool.not_true, Bool.not_false, Bool.or_false, Bool.false_or, Bool.or_self, Bool.false_eq_true,
+        if_false]
+      generalize readDir path = R at *
+      rcases R with ⟨files, e2⟩
+      cases e2 with
+      | some e => simp [shape, ofModel, GoLite.idPure, hdef]
+      | none =>
+        simp only [Option.isSome_none, Bool.false_eq_true, if_false]
+        rw [GoLite.forIn_eq_foldE' _ (fileStep ⟨lstat, readDir, readCert⟩ path t) (fun acc => (none, none, acc))
+          (fun acc e => (some (default, some (GoLite.errT "CertificateError" "")), e, acc)) ?h files _ [] ?hs]
+        case hs => rfl
+        case h =>
+          intro f acc
+          unfold fileStep
+          simp only []
+          cases f.IsDir <;> cases f.«Type».symlink <;> try (simp; done)
+          cases hp : (readCert (filepath.Join path f.Name)).2 <;> try (simp [hp]; done)
+          cases hvs : ValidateCertificates (readCert (filepath.Join path f.Name)).1 <;>
+            try (simp [hp, hvs]; done)
+          cases ht : (t == "tsa")
+          · simp [hp, hvs, ht]
+          · simp only [hp, hvs, ht, Bool.or_self, Bool.false_eq_true, if_false, if_true, Option.isSome_none]
+            rw [GoLite.forIn_eq_foldE' _ (checkStep rootChk) (fun _ => (none, none))
+              (fun _ e => (some (default, some (GoLite.errT "CertificateError" "")), e)) ?hi _ _ () ?his]
+            case his => rfl
+            case hi =>
+              intro c u
+              cases hc : isRootCACertificate c <;> simp [checkStep, rootChk, hc]
+            simp only [pure_bind, foldE_checkStep]
+            cases firstSome rootChk (readCert (filepath.Join path f.Name)).1 <;> simp
+        simp only [pure_bind]
+        have hf := foldE_fileStep ⟨lstat, readDir, readCert⟩ path t files []
+        have hso : sortEntries (files.map (absEntry ⟨lstat, readDir, readCert⟩ path)) =
+            files.map (absEntry ⟨lstat, readDir, readCert⟩ path) := by
+          apply sortEntries_of_sorted
+          rw [List.pairwise_map]
+          exact hsrt
+        simp only [hso, List.map_nil] at hf ⊢
+        rw [← hf]
+        cases GoLite.foldE (fileStep ⟨lstat, readDir, readCert⟩ path t) files [] with
+        | error pe => simp [shape, ofModel, GoLite.idPure, hdef]
+        | ok cs =>
+          cases cs with
+          | nil => simp [shape, ofModel, GoLite.idPure, GoLite.len, hdef]
+          | cons c cs' =>
+            have h1 : ¬ ((cs'.length : Int) + 1 < 1) := by omega
+            have h2 : ¬ ((cs'.length : Int) + 1 = 0) := by omega
+            have h3 : ¬ ((0 : Int) = (cs'.length : Int) + 1) := by omega
+            simp [shape, ofModel, GoLite.idPure, GoLite.len, h1, h2, h3]
+
+/-- the translated `GetCertificates` satisfies the property: for every oracle, what it returns is
+an observation of which all clauses of `Holds` are true on the world the oracles stand for -/
+theorem source_GetCertificates_satisfies_property (ts : x509TrustStore) (w : World) (t n : String)
+    (hsorted : ∀ p, (w.ReadDir p).1.Pairwise (fun a b => nameLe a.Name.toList b.Name.toList = true)) :
+    Holds (absInput ts w t n)
+      { ok := (x509TrustStore.GetCertificates ts w () t n).2.isNone,
+        certs := (x509TrustStore.GetCertificates ts w () t n).1.map (·.id), path := [] } = true := by
+  have h := source_GetCertificates_refines_model ts w t n hsorted
+  have hrun : run (absInput ts w t n) =
+      { ok := (x509TrustStore.GetCertificates ts w () t n).2.isNone,
+        certs := (x509TrustStore.GetCertificates ts w () t n).1.map (·.id), path := [] } := by
+    have hop : (absInput ts w t n).op = .load := rfl
+    simp only [run, hop]
+    simp only [shape] at h
+    cases hg : getCertificates (absInput ts w t n) with
+    | none =>
+      rw [hg] at h
+      simp only [ofModel, Prod.mk.injEq] at h
+      have h1 : (x509TrustStore.GetCertificates ts w () t n).1 = [] := by simpa using h.1
+      simp [h.2, h1]
+    | some cs =>
+      rw [hg] at h
+      simp only [ofModel, Prod.mk.injEq] at h
+      have : cs.map (·.id) = (x509TrustStore.GetCertificates ts w () t n).1.map (·.id) := by
+        rw [← h.1, List.map_map]; rfl
+      simp [h.2, this]
+  rw [← hrun]
+  exact model_holds _
+
+/-! non-vacuity: the translated functions run on concrete oracles -/
+def exRoot (k : Nat) : x509.Certificate :=
+  { id := k, IsCA := true, RawSubject := [k], RawIssuer := [k], SignatureAlgorithm := 1, RawTBSCertificate := [k],
+    Signature := [k], signOk := true, selfSigErr := none }
+def exInter (k : Nat) : x509.Certificate := { exRoot k with RawIssuer := [0], selfSigErr := some ⟨"x509"⟩ }
+def exStore : x509TrustStore := ⟨⟨fun p => (p, none)⟩⟩
+/-- a real directory with two regular files, each holding the same two certificates -/
+def exWorld (cs : List x509.Certificate) (second : fs.DirEntry) : World :=
+  { Lstat := fun _ => (⟨fs.ModeDir⟩, none),
+    ReadDir := fun _ => ([⟨"a.pem", false, default⟩, second], none),
+    ReadCertificateFile := fun _ => (cs, none) }
+
+example : ((x509TrustStore.GetCertificates exStore (exWorld [exRoot 1, exInter 2] ⟨"b.pem", false, default⟩) () "ca" "acme").1.map (·.id),
+    (x509TrustStore.GetCertificates exStore (exWorld [exRoot 1, exInter 2] ⟨"b.pem", false, default⟩) () "ca" "acme").2) =
+    ([1, 2, 1, 2], none) := by decide
+/-- the same store as a tsa store: certificate 2 is not a self-signed root -/
+example : x509TrustStore.GetCertificates exStore (exWorld [exRoot 1, exInter 2] ⟨"b.pem", false, default⟩) () "tsa" "acme" =
+    ([], some ⟨"CertificateError"⟩) := by decide
+/-- a symlink next to a good file, an unknown type, a dot name -/
+example : x509TrustStore.GetCertificates exStore (exWorld [exRoot 1] ⟨"b.pem", false, fs.ModeSymlink⟩) () "ca" "acme" =
+    ([], some ⟨"CertificateError"⟩) := by decide
+example : x509TrustStore.GetCertificates exStore (exWorld [exRoot 1] ⟨"b.pem", false, default⟩) () "CA" "acme" =
+    ([], some ⟨"TrustStoreError"⟩) := by decide
+example : x509TrustStore.GetCertificates exStore (exWorld [exRoot 1] ⟨"b.pem", false, default⟩) () "ca" ".." =
+    ([], some ⟨"TrustStoreError"⟩) := by decide
+example : (ValidateCertificates [exRoot 1, { exInter 2 with IsCA := false }]).isSome = true := by decide
+example : isRootCACertificate (exRoot 1) = none ∧ (isRootCACertificate (exInter 2)).isSome = true := by decide
+example : dir.X509TrustStoreDir ["ca", "acme"] = "truststore/x509/ca/acme" := by decide
+example : file.IsValidFileName "acme.roots" = true ∧ file.IsValidFileName ".." = false ∧ file.IsValidFileName "a/b" = false := by decide
+
+end Tie
 
 end NotationModel.C13
